@@ -183,6 +183,12 @@ def ob_needing_utility(h):
     h.check("actual_gcc_is_pocket_free_gcc", out[PT.H_NET_A.value] is H)
 
 
+def _callee_contracts():
+    from . import C08
+    from .C09 import _deps
+    return _deps(C08, ("C08.apply.b",), "C07.dep.", "insert_temperature_interval: the pocket sweep relies on a breakpoint being inserted whenever it is more than tol away from every row")
+
+
 def obligations():
     fs = [gm.get_GCC_without_pockets, gm._remove_pockets_on_one_side_of_the_pinch, gm._pocket_exit_index]
     exp = ("np_is_min_envelope", "keeps_Qh_at_top", "monotone_above_pinch", "monotone_below_pinch")
@@ -211,4 +217,4 @@ def obligations():
         unbounded.split_obligation("C07.split.u"),
         Obligation("C07.actual", ob_needing_utility, kind="proof", functions=[gm.get_GCC_needing_utility]),
     ]
-    return obs
+    return obs + _callee_contracts()
